@@ -7,6 +7,7 @@ import (
 	"io"
 	"log/slog"
 	"os"
+	"path/filepath"
 	"sync"
 	"time"
 
@@ -37,8 +38,8 @@ type wresult struct {
 	Lost      []string       `json:"lost"`      // clients whose version acknowledged BEFORE Close was invoked is not recovered
 	LateLost  []string       `json:"late_lost"` // clients whose call was acknowledged after Close was invoked and is not recovered (C13: calls after Close must fail)
 	AckedPre  map[string]int `json:"acked_before_close"`
-	Forced    int            `json:"forced"`    // controllable steps actually forced
-	Skipped   int            `json:"skipped"`   // steps that could not be forced (procedure had already ended)
+	Forced    int            `json:"forced"`  // controllable steps actually forced
+	Skipped   int            `json:"skipped"` // steps that could not be forced (procedure had already ended)
 	Note      string         `json:"note,omitempty"`
 }
 
@@ -323,6 +324,29 @@ func runSchedule(b wbehaviour) (wresult, error) {
 			}
 			if err := advanceAdmin(want); err != nil {
 				return r, err
+			}
+		case "A_Fail":
+			// the snapshot fails right after BeginSnapshotMode: its temp file cannot be created
+			if adminLive && adminKind == "snap" && adminStage == "snap.begin" {
+				obstacle := filepath.Join(dir, "kektordb.kdb.tmp")
+				if err := os.Mkdir(obstacle, 0o755); err != nil {
+					return r, fmt.Errorf("cannot place the obstacle: %v", err)
+				}
+				s.releaseKey(adminStage)
+				select {
+				case aerr := <-adminDone:
+					if aerr == nil {
+						os.RemoveAll(obstacle)
+						return r, fmt.Errorf("SaveSnapshot succeeded although its temp file could not be created")
+					}
+				case <-time.After(stepTimeout):
+					return r, fmt.Errorf("failing snapshot did not return")
+				}
+				os.RemoveAll(obstacle)
+				adminLive = false
+				r.Forced++
+			} else {
+				r.Skipped++
 			}
 		case "A_Reappend":
 			if adminLive && !reappendReleased && (adminStage == "snap.ended" || adminStage == "rw.ended") {
